@@ -58,6 +58,49 @@ class Prop:
         head = {"stream": 4, "vq": 2, "net": 2, "node": 2, "udp": 2}.get(case.split(" ")[0], 1)
         return core.shrink_tokens(self.bin_for(case), case, head, still_bad, budget=60)
 
+    def needs_confirmation(self, case, imp):
+        """cases whose oracle rests on a timing assumption about this machine (logical time grids, paced peers,
+        wall-clock bounds): a failure must reproduce when the same case is executed again"""
+        if case.startswith("vq seq") or case.startswith("vq conc") or case.startswith("node early"):
+            return True
+        if case.startswith("node stop"):
+            return "after=0" in imp      # only the wall-clock bound failed
+        return False
+
+    def confirm(self, stats, tries=3):
+        def reproduced(case, pred):
+            for _ in range(tries):
+                imp, oracle, model = core.eval_case(self.bin_for(case), case)
+                if pred(imp, oracle, model):
+                    return True
+            return False
+        keep = []
+        budget = [12]
+
+        def reproduced_b(case, pred):
+            if budget[0] <= 0:
+                return bool(keep)       # beyond the budget: kept only next to a confirmed failure
+            budget[0] -= 1
+            return reproduced(case, pred)
+        for (case, imp, oracle) in stats.oracle_fail:
+            if self.needs_confirmation(case, imp) and not reproduced_b(case, lambda i, o, m: "FAIL" in o):
+                stats.notes.append("unreproduced timing anomaly (failed once, passed %d re-executions): %s -> %s" % (tries, case[:400], oracle[:200]))
+                stats.tags["unreproduced-anomaly"] = stats.tags.get("unreproduced-anomaly", 0) + 1
+            else:
+                keep.append((case, imp, oracle))
+        dropped = {c for (c, _, _) in stats.oracle_fail} - {c for (c, _, _) in keep}
+        stats.oracle_fail[:] = keep
+        keep2 = []
+        for (case, imp, model) in stats.disagreements:
+            if case in dropped:
+                continue
+            if (not case.startswith("#") and self.needs_confirmation(case, imp) and self.compare_possible()
+                    and not reproduced_b(case, lambda i, o, m: i != m)):
+                stats.notes.append("unreproduced disagreement: %s" % case[:400])
+                continue
+            keep2.append((case, imp, model))
+        stats.disagreements[:] = keep2
+
     def known_match(self, entry, v):
         ident = entry.get("identity", {})
         return ident.get("case") is not None and ident.get("case") == v.case
@@ -107,6 +150,7 @@ class Prop:
             if not ok_model:
                 violations.append(Violation("tie", "model/driver does not build", extra={"out": out[-1500:]}))
             self.tie(stats, tier, seed)
+            self.confirm(stats)
             for (case, imp, oracle) in stats.oracle_fail:
                 violations.append(Violation("oracle", "direct oracle fails on the implementation", case, imp, None, oracle, True))
             failing_cases = {c for (c, _, _) in stats.oracle_fail}
@@ -177,8 +221,13 @@ class Prop:
         seen = set()
         for v in failing[:3]:
             if self.run_bin and v.case and not v.case.startswith("#") and self.reexecutable(v.case):
+                orig = (v.case, v.impl, v.oracle, v.model)
                 v.case = self.shrink(v.case, lambda imp, oracle, model: "FAIL" in oracle)
                 v.impl, v.oracle, v.model = core.eval_case(self.bin_for(v.case), v.case)
+                if "FAIL" not in (v.oracle or ""):
+                    # the shrunk case does not fail when run again: report the case as first observed
+                    v.extra = dict(v.extra, shrunk_case_not_failing=v.case)
+                    v.case, v.impl, v.oracle, v.model = orig
             if v.case not in seen:
                 seen.add(v.case)
                 out.append(v)
